@@ -231,6 +231,16 @@ class State:
     def setf(s, ref, name, v): s.heap[ref.oid][1][name] = v
     def cls(s, ref): return s.heap[ref.oid][0]
 
+def adopt(st, rd, rd2, sub=("_buffer",)):
+    """havoc by replacement that keeps object identities: the fields of the freshly made symbolic object rd2 move onto the existing object rd, and the fields of
+    its sub-objects named in `sub` onto the existing sub-objects (locals of the function under verification may alias either, e.g. `buffer = self._buffer`)"""
+    old_fields = st.heap[rd.oid][1]; new_cls, new_fields = st.heap[rd2.oid]; new_fields = dict(new_fields)
+    for name in sub:
+        o, n = old_fields.get(name), new_fields.get(name)
+        if isinstance(o, Ref) and isinstance(n, Ref) and o.oid in st.heap and n.oid in st.heap and o.oid != n.oid:
+            st.heap[o.oid] = st.heap[n.oid]; del st.heap[n.oid]; new_fields[name] = o
+    st.heap[rd.oid] = (new_cls, new_fields); del st.heap[rd2.oid]
+
 class Unsupported(Exception): pass
 
 _light_cache = {}
